@@ -234,6 +234,25 @@ def run_check(check_cls, argv):
                     around = gen.around(chk.rng, hot[:6], chk.scale(200, 2000))
                     chk.count("inputs_around_changed_table_entries", len(around))
                     failures = list(failures) + list(chk.oracle_on_texts(around))
+                    # the model driver built with the committed reference copy of the tables says what these small drawings
+                    # looked like before the tables moved: where the implementation now differs from it, the behaviour of a
+                    # table entry changed — those drawings go to the oracle once more as suspects, and the difference
+                    # itself is a broken tie (model of the committed tables vs implementation)
+                    if chk.zoo:
+                        refbin = common.reference_model_bin()
+                        if refbin:
+                            import backend
+                            cases = [(t, backend.Settings(b=False, s=False, d=False), "settings") for t in around]
+                            res = backend.run_full(cases, model_bin=refbin)
+                            moved = [c[0] for c, r in zip(cases, res)
+                                     if backend.compare_outputs(r["impl"], r["model"]) == "different"]
+                            chk.count("drawings_that_changed_with_the_tables", len(moved))
+                            if moved:
+                                failures = list(failures) + list(chk.oracle_on_texts(moved[:200]))
+                                for t in moved[:3]:
+                                    disagreements = list(disagreements) + [Disagreement(
+                                        "tables: implementation vs the model with the committed reference tables",
+                                        {"input": t, "input_hex": common.hx(t)}, "", "")]
                 # drawings at the ends of the size axes go to the property's own oracle as well
                 if chk.zoo and hasattr(chk, "oracle_on_texts"):
                     import gen
